@@ -366,8 +366,36 @@ def components(ctx):
     return comps
 
 
+def gen_aesfail(rng, tier, mult):
+    n = (150 if tier == "quick" else 2000) * mult
+    cases = []
+    for ci in range(n):
+        r = rng.fork("af%d" % ci)
+        ops = []
+        for _ in range(r.range(1, 3)):
+            ops.append("aesfail %d %s %s %s" % (r.range(0, 6), vlib.hx(r.bytes(r.choice([16, 32]))), vlib.hx(r.bytes(16)),
+                                                vlib.hx(r.bytes(r.choice([16, 32])))))
+        cases.append(ops)
+    return cases
+
+
+def aesfail_component():
+    return vlib.Component(
+        "aes-selftest-allocfail", "h_aesfail.c",
+        ["crypto/crypto_aes_aesni.c", "cpusupport/cpusupport_x86_aesni.c", "util/insecure_memzero.c", "util/warnp.c"],
+        ["aesfailmon", "model"], gen_aesfail, nontrivial=lambda c: any(not o.startswith("aesfail 0 ") for o in c),
+        rule="fresh dispatch state; the k-th (k=0..6) malloc of the first crypto_aes_key_expand fails (self-test key or result); a second "
+             "expansion follows; the FIRST key is then used: NULL or FIPS-197 ciphertexts, nothing else; non-trivial = a failure is injected",
+        monitor_args=["aesfailmon"], ignore_l2=True, ldflags=["-Wl,--wrap=malloc", "-lcrypto"],
+        classify=lambda case, out: ["aesfail:" + ("fail" if o.startswith("fail") else "ct") for o in out])
+
+
 def check(ctx):
-    comps = components(ctx)
+    # The AES-CTR bulk loop of crypto_aesctr_aesni.c (counter handling across byte boundaries up to 2^59 blocks, reached
+    # with C02's white-box `seek`) is modelled and proved in C02; its two components (software build, AES-NI build),
+    # both judged by Spec.Ctr, are part of this property's check as well.
+    from props import c02 as _c02
+    comps = components(ctx) + _c02.components(ctx) + [aesfail_component()]
     ctx.assumptions += [
         "the host executes SHA-NI, SSSE3, SSE2, SSE4.2 (64-bit) and AES-NI (checked: the `path` op of every build must report the expected variant)",
         "instruction semantics (CRC32 r32,r/m8|32|64; PSRLD/PSLLD/PSRLQ/PSHUFD/PSLLDQ/PSRLDQ/MOVSS/PSHUFB/PALIGNR/PUNPCK*QDQ; SHA256RNDS2/MSG1/MSG2; "
